@@ -97,6 +97,7 @@ func Run(s *sim.Sim, res *runner.Result, h Hooks) {
 		if h.Env != nil {
 			acts = append(acts, h.Env(w, wl)...)
 		}
+		acts = append(acts, w.SleeperActions()...)
 		if !s.StepOnce(acts, 30) {
 			break
 		}
